@@ -32,6 +32,7 @@ type Env struct {
 	Extra string
 	w     *bufio.Writer
 	nev   int
+	cli   *cliFront
 }
 
 // Emit writes one event.
